@@ -44,10 +44,10 @@ func TestReplay(t *testing.T) { stats.RunReplays(t) }
 
 // Case: a mutation history on router A; router B is filled with the surviving set in Order.
 type Case struct {
-	G      rt.Global  `json:"global"`
-	Ops    []hist.Op  `json:"ops"`
-	Order  []int      `json:"order"` // permutation ranks applied to the sorted surviving keys
-	Probes []rt.Req   `json:"probes"`
+	G      rt.Global `json:"global"`
+	Ops    []hist.Op `json:"ops"`
+	Order  []int     `json:"order"` // permutation ranks applied to the sorted surviving keys
+	Probes []rt.Req  `json:"probes"`
 }
 
 type outcome struct {
@@ -357,4 +357,3 @@ func TestPermutations(t *testing.T) {
 		stats.NonTrivial(fmt.Sprintf("perm|%+v|%v", c.G, c.Routes))
 	})
 }
-
